@@ -247,11 +247,23 @@ impl<M: GuestAddressSpace> VringState<M> {
 
     /// Read event from the kick `EventFd`.
     fn read_kick(&self) -> io::Result<bool> {
-        if let Some(kick) = &self.kick {
-            kick.consume()?;
+        // A disabled vring must not be processed: leave the notification pending, so that it is
+        // handled once the vring gets enabled again instead of being lost.
+        if !self.enabled {
+            return Ok(false);
         }
 
-        Ok(self.enabled)
+        if let Some(kick) = &self.kick {
+            match kick.consume() {
+                Ok(()) => {}
+                // Spurious wake-up (e.g. caused by a kick fd that has been replaced in the
+                // meantime): there is nothing to process, and no reason to stop the worker.
+                Err(e) if e.kind() == io::ErrorKind::WouldBlock => return Ok(false),
+                Err(e) => return Err(e),
+            }
+        }
+
+        Ok(true)
     }
 
     /// Set `EventFd` for call.
